@@ -695,3 +695,37 @@ package eval
 //@     invariant [arity-prefix] (forall ((j Int)) (! (=> (and (<= (off (fld $root children)) j) (<= j (+ (off (fld $root children)) $rangeindex))) (AO (select (arr (fld $root children)) j))) :pattern ((select (arr (fld $root children)) j))))
 //@     invariant [root-arity] (<= (len (fld $root children)) 127)
 //@     decreases (- (len (fld $root children)) $rangeindex)
+
+// ---------------------------------------------------------------------------
+// C10 — who may be invoked at compile time.  dyn.n / dyn.fn: ghost log of calls through function values.
+//@ macro (INLIST $x $l) (exists ((j Int)) (and (<= (off $l) j) (< j (+ (off $l) (len $l))) (= (select (arr $l) j) $x)))
+//@ macro (STATELESSFN $cc $f) (exists ((s Int)) (or (and (INLIST s (global builtinStatelessOperations)) (= $f (mapget (global builtinOperators) s)))
+//@        (and (INLIST s (fld $cc StatelessOperators)) (= $f (mapget (fld $cc OperatorMap) s)) (not (= $f 0)))))
+
+//@ func isStatelessOp C10
+//@   requires [args] (and (not (= $c 0)) (not (= $n 0)))
+//@   ensures [not-stateless] (=> (not $ret0) (= $ret1 0))
+//@   ensures [stateless] (=> $ret0 (and (or (= (KIND $n) 3) (= (KIND $n) 4)) (is.string (fld $n value))
+//@      (let ((name (p_string (fld $n value))))
+//@        (or (and (INLIST name (global builtinStatelessOperations)) (= $ret1 (mapget (global builtinOperators) name)))
+//@            (and (INLIST name (fld $c StatelessOperators)) (= $ret1 (mapget (fld $c OperatorMap) name)) (not (= $ret1 0)))))))
+//@   ensures [stateless-fn] (=> $ret0 (STATELESSFN $c $ret1))
+//@   assigns
+
+//@ ghost (declare-fun inAst (Int) Bool)
+//@ macro (ASTCLOSED) (forall ((t Int)) (! (=> (inAst t) (let ((nd (fld (ref astNode t) node)) (cs (fld (ref astNode t) children)))
+//@      (and (not (= t 0)) (not (= nd 0)) (=> (or (= (KIND nd) 3) (= (KIND nd) 4)) (is.string (fld nd value)))
+//@           (forall ((j Int)) (! (=> (and (<= (off cs) j) (< j (+ (off cs) (len cs)))) (inAst (select (arr cs) j))) :pattern ((select (arr cs) j))))))) :pattern ((inAst t))))
+//@ macro (ONLYSTATELESSCALLS $cc) (forall ((k Int)) (! (=> (and (<= (old (heap dyn.n)) k) (< k (heap dyn.n))) (STATELESSFN $cc (select (heap dyn.fn) k))) :pattern ((select (heap dyn.fn) k))))
+// justified by the operator-table sweep (sweep/optable/stateless-is-builtin:*): every name in
+// builtinStatelessOperations is a key of builtinOperators, bound to a function
+//@ axiom [stateless-table] (forall ((s Int)) (=> (INLIST s (global builtinStatelessOperations)) (not (= (mapget (global builtinOperators) s) 0))))
+//@ func optimizeConstantFolding C10
+//@   uses stateless-table
+//@   requires [args] (and (not (= $cc 0)) (inAst $root) (ASTCLOSED))
+//@   ensures [ast-closed] (ASTCLOSED)
+//@   ensures [only-stateless-operators-invoked] (ONLYSTATELESSCALLS $cc)
+//@   ensures [log-grows] (>= (heap dyn.n) (old (heap dyn.n)))
+//@   loop 1 (rangeindex)
+//@     invariant [ast-closed] (ASTCLOSED)
+//@     invariant [calls-so-far] (and (ONLYSTATELESSCALLS $cc) (>= (heap dyn.n) (old (heap dyn.n))))
